@@ -1209,4 +1209,268 @@ theorem qinv_runOps (cfg : Config) (ops : List Op) : QInv (runOps cfg ops) := by
     | cons o rest ih => intro st h; exact ih _ ((pres_applyOp st o).qinv h)
   exact this ops _ (qinv_build cfg)
 
+/-! ### 6. destroy_watchlist and tickit_watch_cancel, exactly -/
+
+namespace St
+theorem log_fail (st : St) (w : Ub) : (st.fail w).log = st.log := by unfold fail; split <;> rfl
+theorem log_setW (st : St) (a : Nat) (w : Watch) : (st.setW a w).log = st.log := rfl
+
+theorem log_free (st : St) (a : Nat) : (st.free a).log = st.log := by
+  unfold free; split
+  · rfl
+  · exact log_fail _ _
+
+theorem getW_free_ne (st : St) (a b : Nat) (h : a ≠ b) : (st.free a).getW b = st.getW b := by
+  unfold free; split
+  · exact getW_setW_ne _ _ _ _ h
+  · exact getW_fail _ _ _
+
+theorem live_setW_ne (st : St) (a b : Nat) (w : Watch) (h : a ≠ b) : (st.setW a w).live b = st.live b := by
+  simp only [live, setW, List.getElem?_set, if_neg h]
+
+theorem live_fail (st : St) (w : Ub) (b : Nat) : (st.fail w).live b = st.live b := by
+  unfold live; rw [heap_fail]
+
+theorem live_free_ne (st : St) (a b : Nat) (h : a ≠ b) : (st.free a).live b = st.live b := by
+  unfold free; split
+  · exact live_setW_ne _ _ _ _ h
+  · exact live_fail _ _ _
+
+theorem live_free_self (st : St) (a : Nat) (h : st.live a = true) : (st.free a).live a = false := by
+  have hlt := live_lt h
+  unfold free
+  rw [if_pos h]
+  simp only [live, setW, List.getElem?_set, if_true, if_pos hlt]
+  rfl
+
+theorem status_free_of_live (st : St) (a : Nat) (h : st.live a = true) : (st.free a).status = st.status := by
+  unfold free; rw [if_pos h]; rfl
+end St
+
+theorem heap_cancelHook (st : St) (t : WType) (evi : Nat) : (cancelHook st t evi).heap = st.heap := by
+  unfold cancelHook
+  split
+  · rfl
+  · unfold evloopCancelSignal
+    simp only []
+    split
+    · rfl
+    · split
+      · split <;> rfl
+      · rfl
+  · rfl
+
+theorem log_cancelHook (st : St) (t : WType) (evi : Nat) : (cancelHook st t evi).log = st.log := by
+  unfold cancelHook
+  split
+  · rfl
+  · unfold evloopCancelSignal
+    simp only []
+    split
+    · rfl
+    · split
+      · split <;> rfl
+      · rfl
+  · rfl
+
+theorem getW_of_heap_eq {st st' : St} (h : st'.heap = st.heap) (a : Nat) : st'.getW a = st.getW a := by
+  unfold St.getW; rw [h]
+theorem live_of_heap_eq {st st' : St} (h : st'.heap = st.heap) (a : Nat) : st'.live a = st.live a := by
+  unfold St.live; rw [h]
+
+theorem heap_notify (st : St) (a flags : Nat) : (notify st a flags).heap = st.heap := by
+  unfold notify; simp only []; split <;> rfl
+
+theorem filterMap_congr' {α β : Type} (f g : α → Option β) : ∀ (l : List α), (∀ x ∈ l, f x = g x) → l.filterMap f = l.filterMap g := by
+  intro l
+  induction l with
+  | nil => intro _; rfl
+  | cons a r ih =>
+    intro h
+    simp only [List.filterMap_cons]
+    rw [h a List.mem_cons_self, ih (fun x hx => h x (List.mem_cons_of_mem a hx))]
+
+/-- The notification `destroy_watchlist` owes the watch at `a`. -/
+def destroyNote (st : St) (a : Nat) : Option Ev :=
+  if (st.getW a).flags &&& (BIND_UNBIND ||| BIND_DESTROY) ≠ 0 ∧ (st.getW a).slot ≥ 0 then
+    some (.cb (st.getW a).slot (EV_UNBIND ||| EV_DESTROY) .none)
+  else none
+
+theorem log_destroyNotify (st : St) (a : Nat) :
+    (destroyNotify st a).log = (match destroyNote st a with | some e => [e] | none => []) ++ st.log := by
+  unfold destroyNotify destroyNote notify
+  by_cases h1 : (st.getW a).flags &&& (BIND_UNBIND ||| BIND_DESTROY) ≠ 0
+  · by_cases h2 : (st.getW a).slot ≥ 0
+    · simp [h1, h2, St.emit]
+    · simp [h1, h2]
+  · simp [h1]
+
+theorem heap_destroyNotify (st : St) (a : Nat) : (destroyNotify st a).heap = st.heap := by
+  unfold destroyNotify; split
+  · exact heap_notify _ _ _
+  · rfl
+
+/-- `destroy_watchlist` over a list of distinct live watches: when it runs to completion, the log gains
+    exactly one UNBIND|DESTROY notification for every watch whose stored flags ask for one, in list
+    order, and nothing else. -/
+theorem destroyList_log (t : WType) : ∀ (l : List Nat) (st : St), l.Nodup → st.allLive l = true →
+    (destroyList st t l).status = .ok →
+    (destroyList st t l).log = (l.filterMap (destroyNote st)).reverse ++ st.log := by
+  intro l
+  induction l with
+  | nil => intro st _ _ _; simp [destroyList]
+  | cons a rest ih =>
+    intro st hnd hlive hok
+    rw [List.nodup_cons] at hnd
+    simp only [St.allLive, List.all_cons, Bool.and_eq_true] at hlive
+    unfold destroyList at hok ⊢
+    split
+    · rename_i h; exact St.not_ok_absurd h (by
+        rw [if_pos h] at hok; exact hok)
+    · rename_i hst
+      rw [if_neg hst] at hok
+      split
+      · rename_i h; rw [hlive.1] at h; cases h
+      · rename_i hl
+        rw [if_neg hl] at hok
+        -- the state after this element
+        have hheap : ((cancelHook (destroyNotify st a) t (st.getW a).evi)).heap = st.heap := by
+          rw [heap_cancelHook, heap_destroyNotify]
+        have hlv : (cancelHook (destroyNotify st a) t (st.getW a).evi).live a = true := by
+          rw [live_of_heap_eq hheap]; exact hlive.1
+        have hrest : ∀ b ∈ rest, ((cancelHook (destroyNotify st a) t (st.getW a).evi).free a).getW b = st.getW b := by
+          intro b hb
+          have hne : a ≠ b := fun h => hnd.1 (h ▸ hb)
+          rw [St.getW_free_ne _ _ _ hne, getW_of_heap_eq hheap]
+        have hrl : ((cancelHook (destroyNotify st a) t (st.getW a).evi).free a).allLive rest = true := by
+          simp only [St.allLive, List.all_eq_true] at hlive ⊢
+          intro b hb
+          have hne : a ≠ b := fun h => hnd.1 (h ▸ hb)
+          rw [St.live_free_ne _ _ _ hne, live_of_heap_eq hheap]
+          exact hlive.2 b hb
+        have hnote : rest.filterMap (destroyNote ((cancelHook (destroyNotify st a) t (st.getW a).evi).free a)) =
+            rest.filterMap (destroyNote st) := by
+          apply filterMap_congr'
+          intro b hb
+          unfold destroyNote
+          rw [hrest b hb]
+        rw [ih _ hnd.2 hrl hok, hnote, St.log_free, log_cancelHook, log_destroyNotify]
+        simp only [List.filterMap_cons]
+        cases destroyNote st a <;> simp
+
+theorem not_mem_after_first (a : Nat) : ∀ l : List Nat, l.Nodup → a ∉ (l.dropWhile (· ≠ a)).drop 1 := by
+  intro l
+  induction l with
+  | nil => intro _; simp
+  | cons x xs ih =>
+    intro hnd
+    rw [List.nodup_cons] at hnd
+    by_cases hx : x = a
+    · subst hx
+      simp only [List.dropWhile_cons, ne_eq, not_true_eq_false, decide_false, Bool.false_eq_true, if_false,
+        List.drop_succ_cons, List.drop_zero]
+      exact hnd.1
+    · simp only [List.dropWhile_cons, ne_eq, hx, not_false_eq_true, decide_true, if_true]
+      exact ih hnd.2
+
+theorem lists_free (st : St) (a : Nat) (t : WType) : listOf (st.free a) t = listOf st t := by
+  unfold St.free
+  split
+  · cases t <;> rfl
+  · unfold St.fail; split <;> (cases t <;> rfl)
+
+theorem listOf_setListOf (st : St) (t : WType) (l : List Nat) (h : t ≠ .none) : listOf (setListOf st t l) t = l := by
+  cases t <;> first | rfl | exact absurd rfl h
+
+/-- `tickit_watch_cancel` on a live timer or deferred callback that is linked in its list (distinct live
+    watches): the watch leaves the list, is freed, and the log gains exactly the UNBIND notification it
+    asked for — one if its flags contain UNBIND, none otherwise. -/
+theorem watchCancel_exact (st : St) (a : Nat) (hok : st.status = .ok) (hl : st.live a = true)
+    (ht : (st.getW a).type = .timer ∨ (st.getW a).type = .later)
+    (hall : st.allLive (listOf st (st.getW a).type) = true) (hnd : (listOf st (st.getW a).type).Nodup)
+    (hin : a ∈ listOf st (st.getW a).type) :
+    (watchCancel st a).status = .ok ∧ (watchCancel st a).live a = false ∧
+    listOf (watchCancel st a) (st.getW a).type = (listOf st (st.getW a).type).erase a ∧
+    (watchCancel st a).log = (if (st.getW a).flags &&& BIND_UNBIND ≠ 0 ∧ (st.getW a).slot ≥ 0
+               then [Ev.cb (st.getW a).slot EV_UNBIND .none] else []) ++ st.log := by
+  have hisok : st.isOk = true := (St.isOk_iff st).mpr hok
+  have htn : (st.getW a).type ≠ .none := by
+    cases ht with
+    | inl h => rw [h]; decide
+    | inr h => rw [h]; decide
+  have hpre : st.allLive ((listOf st (st.getW a).type).takeWhile (· ≠ a)) = true := by
+    simp only [St.allLive, List.all_eq_true] at hall ⊢
+    intro b hb
+    exact hall b ((List.takeWhile_sublist _).subset hb)
+  have hcont : (listOf st (st.getW a).type).contains a = true := by
+    simp only [List.contains_eq_mem, decide_eq_true_eq]; exact hin
+  have hhook : ∀ s : St, cancelHook s (st.getW a).type (st.getW a).evi = s := by
+    intro s
+    unfold cancelHook
+    cases ht with
+    | inl h => rw [h]
+    | inr h => rw [h]
+  -- the state after unlinking and notifying
+  have hset_heap : (setListOf st (st.getW a).type ((listOf st (st.getW a).type).erase a)).heap = st.heap := by
+    cases (st.getW a).type <;> rfl
+  have hset_log : (setListOf st (st.getW a).type ((listOf st (st.getW a).type).erase a)).log = st.log := by
+    cases (st.getW a).type <;> rfl
+  have hset_status : (setListOf st (st.getW a).type ((listOf st (st.getW a).type).erase a)).status = .ok := by
+    cases (st.getW a).type <;> exact hok
+  have hset_list : listOf (setListOf st (st.getW a).type ((listOf st (st.getW a).type).erase a)) (st.getW a).type
+      = (listOf st (st.getW a).type).erase a := listOf_setListOf _ _ _ htn
+  generalize hs1 : setListOf st (st.getW a).type ((listOf st (st.getW a).type).erase a) = s1 at *
+  have hn_heap : (cancelNotify s1 a (st.getW a)).heap = st.heap := by
+    unfold cancelNotify; split
+    · rw [heap_notify]; exact hset_heap
+    · exact hset_heap
+  have hn_status : (cancelNotify s1 a (st.getW a)).status = .ok := by
+    unfold cancelNotify notify; simp only []
+    split
+    · split <;> exact hset_status
+    · exact hset_status
+  have hn_list : listOf (cancelNotify s1 a (st.getW a)) (st.getW a).type = (listOf st (st.getW a).type).erase a := by
+    unfold cancelNotify notify; simp only []
+    split
+    · split
+      · rw [← hset_list]; cases (st.getW a).type <;> rfl
+      · exact hset_list
+    · exact hset_list
+  have hn_log : (cancelNotify s1 a (st.getW a)).log =
+      (if (st.getW a).flags &&& BIND_UNBIND ≠ 0 ∧ (s1.getW a).slot ≥ 0
+               then [Ev.cb (s1.getW a).slot EV_UNBIND .none] else []) ++ st.log := by
+    unfold cancelNotify notify; simp only []
+    by_cases h1 : (st.getW a).flags &&& BIND_UNBIND ≠ 0
+    · by_cases h2 : (s1.getW a).slot ≥ 0
+      · simp [h1, h2, St.emit, hset_log]
+      · simp [h1, h2, hset_log]
+    · simp [h1, hset_log]
+  have hgw : s1.getW a = st.getW a := getW_of_heap_eq hset_heap a
+  rw [hgw] at hn_log
+  generalize hs2 : cancelNotify s1 a (st.getW a) = s2 at *
+  have hlive2 : s2.live a = true := by rw [live_of_heap_eq hn_heap]; exact hl
+  have hfreeok : (s2.free a).isOk = true := by
+    rw [St.isOk_iff, St.status_free_of_live _ _ hlive2]; exact hn_status
+  have hrestlive : (s2.free a).allLive (((listOf st (st.getW a).type).dropWhile (· ≠ a)).drop 1) = true := by
+    simp only [St.allLive, List.all_eq_true] at hall ⊢
+    intro b hb
+    have hbl : b ∈ listOf st (st.getW a).type :=
+      (List.dropWhile_sublist _).subset ((List.drop_sublist 1 _).subset hb)
+    have hab : a ≠ b := by
+      intro h; subst h
+      exact not_mem_after_first a _ hnd hb
+    rw [St.live_free_ne _ _ _ hab, live_of_heap_eq hn_heap]; exact hall b hbl
+  have hres : watchCancel st a = s2.free a := by
+    unfold watchCancel
+    simp only [hisok, hl, htn, hpre, hcont, Bool.not_true, Bool.false_eq_true, if_false]
+    unfold cancelFound
+    rw [hhook, hs1, hs2]
+    unfold cancelRest
+    simp only [hfreeok, hrestlive, Bool.not_true, Bool.false_eq_true, if_false]
+  rw [hres]
+  refine ⟨?_, St.live_free_self _ _ hlive2, ?_, ?_⟩
+  · exact (St.isOk_iff _).mp hfreeok
+  · rw [lists_free]; exact hn_list
+  · rw [St.log_free]; exact hn_log
+
 end Tickit.EvLoop
